@@ -530,7 +530,7 @@ func encodeGC(c *simkit.Choices, x *simkit.Ctx) *simkit.Violation {
 			// a type the user folders apply to, in every position (value, pointer,
 			// element, field, behind an interface)
 			te = model.TypeByName([]string{"Inner", "Holder", "Nested", "Simple", "[]Simple", "Score", "[]Score", "Scored", "map[string]Score",
-				"PtrShaped", "HasPtrShaped", "[]*Inner", "*Simple"}[c.N(13)])
+				"PtrShaped", "HasPtrShaped", "[]*Inner", "*Simple", "PtrArr", "HasPtrArr"}[c.N(15)])
 			val = te.Gen(c)
 			if c.N(3) == 0 {
 				val = map[string]interface{}{"v": val} // held in an interface: not addressable
